@@ -1,5 +1,7 @@
 //! cfgprobe <corpus.json>: prints one transcript line per case. Built three times: tz-rs with features {}, {alloc}, {alloc,std}.
 mod transcript;
+#[cfg(feature = "alloc")]
+mod transcript_alloc;
 
 fn main() {
     let path = std::env::args().nth(1).expect("usage: cfgprobe <corpus.json>");
@@ -8,6 +10,11 @@ fn main() {
     let mut out = String::new();
     for c in &cases {
         out.push_str(&transcript::transcript(c));
+        #[cfg(feature = "alloc")]
+        {
+            out.push_str("\t#A");
+            out.push_str(&transcript_alloc::transcript_alloc(c));
+        }
         out.push('\n');
     }
     print!("{out}");
